@@ -5,8 +5,9 @@ change, (b) demo fails with the change, (c) demo passes without it; then run the
 patch applied (and undo). Stores everything under /verif/seeded/<prop>-<k>/ with meta.json."""
 import subprocess, sys, os, json, shutil, re
 prop, k = sys.argv[1], sys.argv[2]
-props = [prop] + sys.argv[3:]
-src = '/tmp/seedout/%s/%s' % (prop, k)
+props = [prop] + [a for a in sys.argv[3:] if not a.startswith('--')]
+rnd = 'r2-' if '--r2' in sys.argv else ''
+src = '/tmp/seedout/%s%s/%s' % (rnd, prop, k)
 wt = '/tmp/wt/scratch'
 env = dict(os.environ, GOFLAGS='-mod=mod', GOPROXY='off', GOSUMDB='off', GOTOOLCHAIN='local'); env.pop('GOWORK', None)
 def run(cmd, cwd=wt, timeout=1500):
@@ -98,7 +99,7 @@ res['caught'] = caught
 notes = open(os.path.join(src, 'notes.md')).read() if os.path.exists(os.path.join(src, 'notes.md')) else ''
 print(json.dumps({k: v for k, v in res.items() if k != 'demo_with_change_output'}, indent=1)[:2500])
 if confirmed:
-    dst = '/verif/seeded/%s-%s' % (prop, k)
+    dst = '/verif/seeded/%s%s-%s' % (rnd, prop, k)
     if os.path.isdir(dst): shutil.rmtree(dst)
     os.makedirs(dst)
     shutil.copy(patch, dst + '/patch.diff')
